@@ -23,8 +23,21 @@ pub struct C16Sc {
     pub hostile_kinds: Vec<String>,
 }
 
+/// The IPv4-mapped IPv6 form of an address (what a dual-stack load balancer announces for an IPv4 client).
+fn mapped_form(a: &SocketAddr) -> SocketAddr {
+    match a.ip() {
+        std::net::IpAddr::V4(v4) => SocketAddr::new(std::net::IpAddr::V6(v4.to_ipv6_mapped()), a.port()),
+        _ => *a,
+    }
+}
+
 fn with_header(rng: &mut Rng, spec: &mut ClientSpec, proxy: Option<(bool, bool)>, src: &SocketAddr) {
+    with_header_m(rng, spec, proxy, src, false)
+}
+
+fn with_header_m(rng: &mut Rng, spec: &mut ClientSpec, proxy: Option<(bool, bool)>, src: &SocketAddr, mapped: bool) {
     let Some((v1, v2)) = proxy else { return };
+    let src = &if mapped { mapped_form(src) } else { *src };
     let dst: SocketAddr = if src.is_ipv4() { "192.0.2.200:25565".parse().unwrap() } else { "[2001:db8:ff::1]:25565".parse().unwrap() };
     let use_v1 = if v1 && v2 { rng.chance(1, 2) } else { v1 };
     spec.preamble = Some(if use_v1 { v1_header(src, &dst) } else { v2_header(src, &dst, false) });
@@ -37,6 +50,11 @@ fn generate(rng: &mut Rng) -> C16Sc {
         _ => Some((rng.chance(1, 2), true)),
     };
     let limiter = if rng.chance(1, 2) { Some((secs(8), 3usize)) } else { None };
+    let timeout_s = *rng.pick(&[30u64, 120, 600]);
+    // a dual-stack load balancer: every source is announced in its IPv4-mapped IPv6 form
+    let mapped = proxy.is_some() && rng.chance(1, 5);
+    // the authentication service may take a while (for everybody, the victim included)
+    let auth_lat = *rng.pick(&[0u64, 0, 0, secs(2), secs(5)]);
     let nhmax = match rng.below(64) {
         1..=4 => 64,
         5..=16 => 20,
@@ -47,7 +65,7 @@ fn generate(rng: &mut Rng) -> C16Sc {
     // deployments behind a load balancer: every client (the victim too) arrives from the same one or two peers
     let lb_mode = proxy.is_some() && rng.chance(1, 2);
     // a crowd that misbehaves in the same way (rather than a mix)
-    let same_kind = if rng.chance(1, 3) { Some(rng.below(11)) } else { None };
+    let same_kind = if rng.chance(1, 3) { Some(rng.below(12)) } else { None };
     // who the victim is (hostile clients may claim to be that player)
     let victim_name = "Victim".to_string();
     let victim_uuid = format!("{:032x}", (u128::from(rng.next_u64()) << 64) | u128::from(rng.next_u64()));
@@ -64,10 +82,10 @@ fn generate(rng: &mut Rng) -> C16Sc {
         let src: SocketAddr = format!("198.18.{a}.{b}:{}", 31_000 + i).parse().unwrap();
         let intent = *rng.pick(&[1, 2, 2, 3]);
         let mut spec = ClientSpec::base(rng, intent);
-        with_header(rng, &mut spec, proxy, &src);
+        with_header_m(rng, &mut spec, proxy, &src, mapped);
         let plen = spec.preamble.as_ref().map(|p| p.len() as u64).unwrap_or(0);
         let mut wplan = vec![];
-        let kind = match same_kind.unwrap_or_else(|| rng.below(11)) {
+        let kind = match same_kind.unwrap_or_else(|| rng.below(12)) {
             0 if plen > 0 => {
                 // nothing at all: stalls before the header
                 spec.preamble = None;
@@ -110,6 +128,13 @@ fn generate(rng: &mut Rng) -> C16Sc {
                 }
                 wplan.push(WRule::Stall);
                 "never_reads"
+            }
+            11 => {
+                // answers the Encryption Request only just before its deadline: the deadline strikes while the
+                // authentication service is still being asked
+                spec.intent = 2;
+                spec.login_think_ns = vec![0, secs(timeout_s) - ms(rng.range(200, 1500))];
+                "answers_just_before_the_deadline"
             }
             10 => {
                 // an honest-looking login that the authentication service turns down (never joined a session)
@@ -157,6 +182,20 @@ fn generate(rng: &mut Rng) -> C16Sc {
         spec.close_on_end_ns = Some(0);
         clients.push(NetClient { connect_at_ns: 0, peer: peer.to_string(), spec, wplan: vec![] });
         kinds.push("early_ordinary_login".to_string());
+        // and, long ago, a wave of logins that ran into their deadlines while the authentication service was being asked
+        if auth_lat > 0 && uptime > secs(timeout_s) + secs(60) && rng.chance(1, 2) {
+            for k in 0..rng.range(17, 24) {
+                let i = nh + 1 + k;
+                let peer: SocketAddr = if lb_mode { format!("10.88.0.{}:{}", 1 + k % 2, 21_000 + i).parse().unwrap() } else { format!("10.68.0.{}:{}", 1 + k, 21_000 + i).parse().unwrap() };
+                let src: SocketAddr = format!("198.20.0.{}:{}", 1 + k, 31_000 + i).parse().unwrap();
+                let mut spec = ClientSpec::base(rng, 2);
+                with_header_m(rng, &mut spec, proxy, &src, mapped);
+                spec.login_think_ns = vec![0, secs(timeout_s) - ms(rng.range(200, 1500))];
+                spec.close_on_end_ns = None;
+                clients.push(NetClient { connect_at_ns: ms(100 + rng.range(0, 2000)), peer: peer.to_string(), spec, wplan: vec![] });
+                kinds.push("answers_just_before_the_deadline".to_string());
+            }
+        }
     }
     // the victim: own IP, connects at a random instant, does a status exchange or a full login
     let vpeer: SocketAddr = if lb_mode { "10.88.0.1:45000".parse().unwrap() } else { "10.77.0.1:45000".parse().unwrap() };
@@ -165,7 +204,7 @@ fn generate(rng: &mut Rng) -> C16Sc {
     let mut vspec = ClientSpec::base(rng, vint);
     vspec.name = victim_name.clone();
     vspec.uuid = victim_uuid.clone();
-    with_header(rng, &mut vspec, proxy, &vsrc);
+    with_header_m(rng, &mut vspec, proxy, &vsrc, mapped);
     vspec.coalesce = rng.chance(1, 2);
     clients.push(NetClient { connect_at_ns: uptime + ms(rng.range(0, 8000)), peer: vpeer.to_string(), spec: vspec, wplan: vec![] });
     clients.sort_by_key(|c| c.connect_at_ns);
@@ -184,14 +223,14 @@ fn generate(rng: &mut Rng) -> C16Sc {
     let kinds: Vec<String> = order.into_iter().map(|x| x.1).collect();
     clients.push(v);
     let services = Services {
-        auth: Script::always(Some(0), AuthRes::ErrorIfName { prefix: "Hostile".into() }),
+        auth: Script::always(Some(auth_lat), AuthRes::ErrorIfName { prefix: "Hostile".into() }),
         discovery: Script::always(Some(*rng.pick(&[0u64, 0, secs(2), secs(20)])), DiscRes::Targets(vec![TargetSpec { id: "t0".into(), addr: "10.9.8.7:25565".into(), meta: Default::default() }])),
         ..Default::default()
     };
     C16Sc {
         net: NetScenario {
             seed: rng.next_u64(),
-            cfg: NetCfg { secret: None, expiry: None, max_frame: None, timeout_ns: secs(*rng.pick(&[30u64, 120, 600])), proxy, limiter, use_start: false, agones: false, secret_source: None, localization_from_services: false },
+            cfg: NetCfg { secret: None, expiry: None, max_frame: None, timeout_ns: secs(timeout_s), proxy, limiter, use_start: false, agones: false, secret_source: None, localization_from_services: false },
             wall: Default::default(),
             services,
             clients,
@@ -294,7 +333,7 @@ impl Check for C16 {
         {
             let s = &sc.net.services;
             let routable = matches!(&s.discovery.default.res, crate::services::DiscRes::Targets(t) if !t.is_empty()) && s.discovery.calls.is_empty() && s.discovery.default.lat_ns.is_some();
-            let auth_ok = matches!(&s.auth.default.res, AuthRes::ErrorIfName { prefix } if prefix == "Hostile") && s.auth.calls.is_empty() && s.auth.default.lat_ns == Some(0);
+            let auth_ok = matches!(&s.auth.default.res, AuthRes::ErrorIfName { prefix } if prefix == "Hostile") && s.auth.calls.is_empty() && s.auth.default.lat_ns.is_some_and(|l| l <= secs(5));
             if !routable || !auth_ok || v.spec.name.starts_with("Hostile") || v.spec.protocol <= 0 || v.spec.shared_secret.len() != 16 {
                 return RunReport::default();
             }
@@ -308,7 +347,8 @@ impl Check for C16 {
             let vsrc: SocketAddr = "203.0.113.200:46000".parse().unwrap();
             let dst: SocketAddr = "192.0.2.200:25565".parse().unwrap();
             let (v1, v2) = sc.net.cfg.proxy.unwrap();
-            let ok = (v1 && *p == v1_header(&vsrc, &dst)) || (v2 && *p == v2_header(&vsrc, &dst, false));
+            let (msrc, mdst): (SocketAddr, SocketAddr) = (mapped_form(&vsrc), "[2001:db8:ff::1]:25565".parse().unwrap());
+            let ok = (v1 && (*p == v1_header(&vsrc, &dst) || *p == v1_header(&msrc, &mdst))) || (v2 && (*p == v2_header(&vsrc, &dst, false) || *p == v2_header(&msrc, &mdst, false)));
             if !ok {
                 return RunReport::default();
             }
